@@ -898,6 +898,7 @@ func main() {
 	// 4d. the deprecated entry point handler.GraphQL(es, options...): its ResolverMiddleware and
 	// RequestMiddleware options are extensions too, first option outermost
 	legacyStage(probes[0])
+	subscriptionStage()
 	lap("legacy_entry_point")
 
 	// 4c. the configured parser token limit is part of parsing: a document with more tokens than
@@ -997,4 +998,86 @@ func doReplay(path string) int {
 	runHistory(s, makeHistory(rf.Probe, famKey{rf.Probe, rf.OpSeed}, fe, rf.Config.Exts, rf.HSeed), "replay")
 	s.harvest()
 	return rep.Finish(rep.Get("requests"), 2)
+}
+
+// subscriptionStage: for a subscription the generated Exec starts the subscription field (field
+// interceptors, directives, the resolver returning the channel) right away; that too must happen
+// inside the operation interceptors, first registered outermost, never before them.
+func subscriptionStage() {
+	var names []string
+	for n := range registry.Probes {
+		if strings.HasPrefix(n, "core_") && envOf(n).Schema.Subscription != nil {
+			names = append(names, n)
+		}
+	}
+	sort.Strings(names)
+	if len(names) > 3 {
+		names = names[:3]
+	}
+	for _, probe := range names {
+		for _, q := range []string{"subscription { tick2 }", "subscription S { t: ticks(n: 2) { __typename } }"} {
+			for _, exts := range []extList{{hOI | hFI, hOI | hRI}, {hOI, hFI | hOI | hRF, hOI | hCM}} {
+				s := newServer(config{Probe: probe, Exts: exts, Cache: "none"})
+				l := &reqLog{}
+				p := planFor(int64(len(q)))
+				p.ErrPermille, p.NullPermille, p.DirPermille = 0, 0, 0
+				run := &univ.Run{Plan: &logPlan{Plan: &p, l: l, ext: -1}}
+				ctx, cancel := context.WithTimeout(withLog(univ.WithRun(context.Background(), run), l), 20*time.Second)
+				ctx = graphql.StartOperationTrace(ctx)
+				opCtx, errs := s.exec.CreateOperationContext(ctx, &graphql.RawParams{Query: q})
+				if len(errs) > 0 {
+					cancel()
+					rep.Violate("subscription-refused", map[string]any{"probe": probe, "query": q, "why": "valid subscription refused: " + errs.Error()})
+					continue
+				}
+				responses, rctx := s.exec.DispatchOperation(ctx, opCtx)
+				n := 0
+				for ; n < 50; n++ {
+					if responses(rctx) == nil {
+						break
+					}
+				}
+				cancel()
+				evs := l.snapshot()
+				opsOpen, firstInner, nOps := 0, "", len(exts.with(hOI))
+				var order []string
+				bad := ""
+				for _, e := range evs {
+					switch {
+					case e.Kind == "op" && e.Phase == 'E':
+						opsOpen++
+						order = append(order, strconv.Itoa(e.Ext))
+					case e.Kind == "field" || e.Kind == "resolver" || e.Kind == "root" || e.Kind == "directive":
+						if firstInner == "" {
+							firstInner = e.String()
+							if opsOpen < nOps {
+								bad = fmt.Sprintf("%s happened after %d of %d operation interceptors had been entered", e, opsOpen, nOps)
+							}
+						}
+					}
+				}
+				wantOrder := []string{}
+				for _, i := range exts.with(hOI) {
+					wantOrder = append(wantOrder, strconv.Itoa(i))
+				}
+				if bad == "" && strings.Join(order, ",") != strings.Join(wantOrder, ",") {
+					bad = "operation interceptors entered in order [" + strings.Join(order, ",") + "], registration order is [" + strings.Join(wantOrder, ",") + "]"
+				}
+				if bad == "" && firstInner == "" {
+					bad = "the subscription left no field / resolver event at all"
+				}
+				rep.Count("subscription_order_cases", 1)
+				rep.Count("requests", 1)
+				rep.Count("class_accepted", 1)
+				rep.Distinct("cases", "subscription|"+probe+"|"+q+"|"+exts.String())
+				if bad != "" {
+					var tr []string
+					for _, e := range evs {
+						tr = append(tr, e.String())
+					}
+					rep.Violate("subscription-hook-order", map[string]any{"probe": probe, "query": q, "exts": exts.String(), "why": bad, "trace": tr, "payloads": n})
+				}
+			}
+		}
+	}
 }
